@@ -193,6 +193,9 @@ func (fr *Frame) execInstr(in ssa.Instruction) {
 		fr.set(n, fr.newSlice(n.Type(), ln, cp))
 	case *ssa.MakeMap:
 		ref := x.newRef(st, "map")
+		if mt, ok := x.intKeyedMap(n.Type()); ok {
+			x.newMapObject(st, mt, ref)
+		}
 		fr.set(n, &Value{T: n.Type(), C: []Term{ref}})
 	case *ssa.MakeChan:
 		fr.unsupported("channels")
@@ -252,6 +255,12 @@ func (fr *Frame) execInstr(in ssa.Instruction) {
 		xv := fr.val(n.X)
 		if isString(xv.T) {
 			x.setLocal(st, n, &Value{T: types.Typ[types.Int], C: []Term{IntLit(0)}})
+		} else if _, ok := x.intKeyedMap(xv.T); ok {
+			// ghost set of keys already handed out by this iteration: initially empty
+			row := c.Fresh("seen0", ArrOf(SBool))
+			k := Term{S: "k$s", Sort: SInt}
+			c.Assume(Forall([]Term{k}, Not(Select(row, k)), Select(row, k)))
+			x.setLocal(st, n, &Value{T: nil, SK: "mapseen", C: []Term{row}})
 		}
 		fr.set(n, &Value{T: n.Type(), C: []Term{IntLit(0)}})
 	case *ssa.Next:
@@ -933,6 +942,41 @@ func (fr *Frame) next(n *ssa.Next) {
 		x.setLocal(fr.cur, rg, &Value{T: types.Typ[types.Int], C: []Term{c.Name("pos", Ite(ok, Add(pos, adv), pos))}})
 		fr.set(n, &Value{T: tt, C: []Term{ok, pos, r}})
 		return
+	}
+	if mt, ok := x.intKeyedMap(xv.T); ok {
+		// map iteration: some key of the domain that was not handed out yet; when there is none, every key was
+		st := fr.cur
+		dom, vals := x.mapKeys(mt)
+		seen := st.locals[rg].C[0]
+		drow := Select(x.heapGet(st, dom), xv.C[0])
+		k := c.Fresh("mapkey", SInt)
+		okv := c.Fresh("mapnext", SBool)
+		if b, isB := mt.Key().Underlying().(*types.Basic); isB {
+			if lo, hi, okr := intRange(b); okr {
+				c.Assume(And(Le(BigLit(lo), k), Le(k, BigLit(hi))))
+			}
+		}
+		c.Assume(Implies(okv, And(Neq(xv.C[0], IntLit(0)), Select(drow, k), Not(Select(seen, k)))))
+		j := Term{S: "k$n", Sort: SInt}
+		c.Assume(Implies(Not(okv), Forall([]Term{j}, Implies(And(Neq(xv.C[0], IntLit(0)), Select(drow, j)), Select(seen, j)), Select(drow, j))))
+		x.setLocal(st, rg, &Value{T: nil, SK: "mapseen", C: []Term{c.Name("seen", Ite(okv, Store(seen, k, TTrue), seen))}})
+		out := &Value{T: tt, C: []Term{okv}}
+		if b, isB := tt.At(1).Type().(*types.Basic); isB && b.Kind() == types.Invalid {
+			out.C = append(out.C, IntLit(0))
+		} else {
+			out.C = append(out.C, k)
+		}
+		if b, isB := tt.At(2).Type().(*types.Basic); isB && b.Kind() == types.Invalid {
+			out.C = append(out.C, IntLit(0))
+		} else {
+			for _, vk := range vals {
+				out.C = append(out.C, c.Name("mapval", Select(Select(x.heapGet(st, vk), xv.C[0]), k)))
+			}
+		}
+		if len(out.C) == len(x.eng.layout(tt)) {
+			fr.set(n, out)
+			return
+		}
 	}
 	// map iteration: arbitrary
 	out := &Value{T: tt, C: nil}
